@@ -14,7 +14,8 @@ import (
 // LockDB.Lock on a real SLock+LockDB (EXECUTE arm of ProcessLockData, current stage).
 //   valuedecode <frame hex> <bytes between len and cap, hex>
 //     -> refused | err <big01> | panic | ok <decoded command re-encoded, 64 bytes hex> <its data frame hex or -> <big01>
-//        (big = at least 64 KiB were allocated during the call: make([]byte, dataLen+4) precedes the length check)
+//        (big = at least 128 KiB were allocated during the call: make([]byte, dataLen+4) precedes the length check;
+//         announced lengths between 16 KiB and 256 KiB are not generated, so allocator rounding cannot blur the bit)
 //   valuedecode-e2e <frame hex> <extra hex>  -> nopanic | panic
 // Monitor: panic:DecodeLockCommand:<cause class>
 
@@ -47,6 +48,8 @@ func vxCmd64(r *rand.Rand, withData bool, dbId uint8) []byte {
 	}
 	return buf
 }
+
+var vxHuge = 0
 
 // one generated EXECUTE frame (len bytes) and the spare capacity behind it
 func vxFrame(r *rand.Rand, dbId uint8, e2e bool) (f []byte, extra []byte) {
@@ -89,9 +92,13 @@ func vxFrame(r *rand.Rand, dbId uint8, e2e bool) (f []byte, extra []byte) {
 	case 3:
 		declared = 0
 	case 4: // large / huge announced lengths
-		declared = []int64{1 << 16, 1<<16 - 4, 1 << 20, 1 << 24, 1 << 28}[r.Intn(5)] + int64(r.Intn(3)) - 1
-		if r.Intn(40) == 0 {
-			declared = []int64{1<<31 - 4, 1<<31 - 5, 1 << 31}[r.Intn(3)]
+		declared = int64(len(body)) + 1
+		if r.Intn(4) == 0 {
+			declared = []int64{1 << 18, 1 << 20, 1 << 22}[r.Intn(3)] + int64(r.Intn(3)) - 1
+			if r.Intn(25) == 0 && vxHuge < 8 { // a few multi-GiB announcements per run (each really allocates that much)
+				vxHuge++
+				declared = []int64{1<<31 - 4, 1<<31 - 5, 1 << 31, 1<<32 - 1}[r.Intn(4)]
+			}
 		}
 	case 5:
 		declared = int64(len(body)) + int64(r.Intn(9)) - 4
@@ -130,6 +137,15 @@ func vxFrame(r *rand.Rand, dbId uint8, e2e bool) (f []byte, extra []byte) {
 	return buf[:len(b)], buf[len(b):]
 }
 
+// the data length the embedded command announces (-1: none readable)
+func vxAnnounced(f []byte) int64 {
+	off, ok := vvCellOffset(f)
+	if !ok || len(f) < off+68 {
+		return -1
+	}
+	return int64(uint32(f[off+64]) | uint32(f[off+65])<<8 | uint32(f[off+66])<<16 | uint32(f[off+67])<<24)
+}
+
 func vxCause(f []byte) string {
 	if len(f) < 6 {
 		return "frame-shorter-than-6"
@@ -163,6 +179,9 @@ func init() {
 		var m0, m1 runtime.MemStats
 		for it := 0; it < n; it++ {
 			f, extra := vxFrame(r, uint8(r.Intn(3)), false)
+			if a := vxAnnounced(f); a >= 16384 && a < 262144 {
+				continue
+			}
 			op := "valuedecode " + vHex(f) + " " + vHex(extra)
 			obs := ""
 			func() {
@@ -180,12 +199,18 @@ func init() {
 					return
 				}
 				lc := &protocol.LockCommand{}
-				runtime.ReadMemStats(&m0)
+				// ReadMemStats stops the world: measure every frame that announces a large length and a sample of the others
+				measure := vxAnnounced(f) >= 16384 || it%8 == 0
+				if measure {
+					runtime.ReadMemStats(&m0)
+				}
 				err := d.DecodeLockCommand(lc)
-				runtime.ReadMemStats(&m1)
 				big := "0"
-				if m1.TotalAlloc-m0.TotalAlloc >= 65536 {
-					big = "1"
+				if measure {
+					runtime.ReadMemStats(&m1)
+					if m1.TotalAlloc-m0.TotalAlloc >= 131072 {
+						big = "1"
+					}
 				}
 				if err != nil {
 					obs = "err " + big
